@@ -14,7 +14,7 @@ PROP = {
              "clean-up goroutines still held are either released first or kept held (the structural predicate of C06-F3), the draining tick. The real engine is loaded from YAML "
              "(Queue -> GenerateResponse 429) and every arrival is one Stream.ExecuteFlow call in its own goroutine. After every action the observation (hook events "
              "queue.registered / queue.verdict, returned transactions) is judged by the statement. A second unit runs 2-5 arrivals with ttl_seconds=1 on the real clock (the TTL "
-             "watcher waits with time.After), optionally with a shutdown 150-300 ms after the last arrival. Non-trivial: a tick with >=2 simultaneous waiters of different priority "
+             "watcher waits with time.After), optionally with a shutdown 150-300 ms after the last arrival, or followed - after the waiters expired - by a second wave of queue_size+1..2 arrivals. Non-trivial: a tick with >=2 simultaneous waiters of different priority "
              "or arrival of which not all are admitted, a registration while another arrival sits between its slot check and its registration, a shutdown with waiters, "
              "(real clock) a request expired by its TTL; distinct = canonical JSON of configuration + schedule"),
     "assumptions": [
@@ -30,7 +30,7 @@ PROP = {
     ],
     "units": [
         dict({"pkg": "c06", "test": "TestQueueSchedules", "quick": 2000, "thorough": 20000, "shards": 16}, **_CRASH),
-        dict({"pkg": "c06", "test": "TestTTLRealClock", "quick": 10, "thorough": 100, "shards": 16, "shrinktime": "60s"}, **_CRASH),
+        dict({"pkg": "c06", "test": "TestTTLRealClock", "quick": 12, "thorough": 100, "shards": 16, "shrinktime": "60s"}, **_CRASH),
         dict({"pkg": "c06", "test": "TestWitnessEqualPriorityInversion", "kind": "plain"}, **_CRASH),
         dict({"pkg": "c06", "test": "TestWitnessSlotCheckNotAtomic", "kind": "plain"}, **_CRASH),
         dict({"pkg": "c06", "test": "TestWitnessShutdownSignalsTwice", "kind": "plain"}, **_CRASH),
